@@ -717,7 +717,17 @@ def solve_matrix(matrix, mode=EXACT):
     fs = [Factoid(f) if isinstance(f, collections.abc.Iterable) else f for f in matrix]
     db = dict()
     for ft in fs:
-        insert_db(db, dfactoid(ft, ASM(ft)))
+        df = dfactoid(ft, ASM(ft))
+        if ft.is_zero_var_factoid():
+            # constant factoid: either trivially true, or a contradiction on its own
+            if ft.is_false_factoid():
+                return "UNSAT", Contr(df.deriv)
+            continue
+        # the analysis assumes that every factoid in the database has passed the gcd check
+        g = functools.reduce(gcd, ft.key, 0)
+        if g > 1:
+            df = dfactoid(Factoid([c // g for c in ft]), GCDCheck(df.deriv))
+        insert_db(db, df)
     r = solve(EXACT, db, len(matrix[0]))
     if isinstance(r, Satisfiable):
         return "SAT", r.store
@@ -850,7 +860,11 @@ class OmegaHOL:
 
     def handle_unsat_result(self, res):
         if isinstance(res, Contr):
-            return self.handle_unsat_result(res.deriv)
+            pt = self.handle_unsat_result(res.deriv)
+            if pt.prop.is_less_eq() and pt.prop.arg.is_number(): # 0 <= -3 (a false input factoid)
+                pt_less_zero = proofterm.ProofTerm('int_const_ineq', term.less(term.IntType)(pt.prop.arg, term.Int(0)))
+                return logic.apply_theorem('int_zero_less_eq_neg', pt_less_zero, pt)
+            return pt
         
         elif isinstance(res, ASM):
             return proofterm.ProofTerm.assume(self.fact_hol[res.t])
